@@ -132,7 +132,7 @@ fn build_by_item_struct_core(
                 build_deref_for_struct(item, &e, &fields)
             }
         };
-        ts_all.extend(e.apply_dump(result));
+        ts_all.extend(e.apply_dump(result.map(|ts| with_lint_attrs(ts, &item.attrs))));
     }
     Ok(ts_all)
 }
@@ -176,9 +176,56 @@ fn build_by_item_enum_core(
                 format!("derive `{}` for enum is not supported", e.kind),
             )),
         };
-        ts_all.extend(e.apply_dump(result));
+        ts_all.extend(e.apply_dump(result.map(|ts| with_lint_attrs(ts, &item.attrs))));
     }
     Ok(ts_all)
+}
+
+/// Copies the lint level attributes of the item (`#[allow(..)]`, `#[warn(..)]`, `#[deny(..)]`, `#[forbid(..)]`) to
+/// the generated impls, as the standard derives do: the impls repeat the generic parameters and the field types of
+/// the item, so `#[allow(non_camel_case_types)] struct X<t>(t);` or `#[allow(deprecated)]` must cover them too.
+fn with_lint_attrs(ts: TokenStream, attrs: &[Attribute]) -> TokenStream {
+    let lints: Vec<&Attribute> = attrs
+        .iter()
+        .filter(|a| {
+            ["allow", "warn", "deny", "forbid"]
+                .iter()
+                .any(|name| a.path().is_ident(name))
+        })
+        .collect();
+    if lints.is_empty() {
+        return ts;
+    }
+    fn is_marker(t: &proc_macro2::TokenTree) -> bool {
+        match t {
+            proc_macro2::TokenTree::Group(g) => {
+                g.delimiter() == proc_macro2::Delimiter::Bracket
+                    && g.stream().to_string() == "automatically_derived"
+            }
+            _ => false,
+        }
+    }
+    fn convert(ts: TokenStream, lints: &[&Attribute]) -> TokenStream {
+        let mut out = TokenStream::new();
+        for t in ts {
+            match t {
+                proc_macro2::TokenTree::Group(g) if !is_marker(&proc_macro2::TokenTree::Group(g.clone())) => {
+                    let mut n = proc_macro2::Group::new(g.delimiter(), convert(g.stream(), lints));
+                    n.set_span(g.span());
+                    out.extend(std::iter::once(proc_macro2::TokenTree::Group(n)));
+                }
+                t => {
+                    let marker = is_marker(&t);
+                    out.extend(std::iter::once(t));
+                    if marker {
+                        out.extend(quote!(#(#lints)*));
+                    }
+                }
+            }
+        }
+        out
+    }
+    convert(ts, &lints)
 }
 
 fn build_binary_op(
